@@ -212,8 +212,11 @@ CLAIMED: dict[str, tuple[str, str, str, str]] = {
         "Machine-checked proof for every well-formed version V (any precision, epoch, pre/post/dev) that next major/minor/patch/breaking "
         "are final and strictly greater, that ^V, ~V, ~=V parse to the documented ranges, admit V, reject their upper bound and every "
         "pre-release of it, that ~=V has the PEP 440 compatible-release upper bound, and that the text of a single version/range "
-        "re-parses (token level) to the same range. Partial: the string-level round trip for unions/wildcards is stated "
-        "(`text_roundtrip_full_statement`) and covered by the correspondence (every algebra result re-printed, re-parsed, probed).",
+        "re-parses at STRING level: `Version.parse v.text = ok v` for every normal-form text and every clean parsed spelling (digit round trip), "
+        "identical re-parse for single versions, all plain ranges and `*`, for `==X.*`/`!=X.*` as the parser builds them, and "
+        "membership-equivalent re-parse for `!=V` and `a || b || …` joins (regular setting). Partial: algebra-produced ranges that the printer "
+        "happens to spell with a wildcard and wildcard members inside a `||` join are covered by the correspondence (every algebra result "
+        "re-printed, re-parsed, probed); a raw spelling ending in a separator is a proved counterexample and a known finding.",
         TB + "As C05; wildcard printing mirrored incl. the epoch fix.",
         "DESIGN.md §4 C15",
     ),
